@@ -55,6 +55,9 @@ pub struct Step {
     /// seed of the golden ticket search (lottery outcome)
     #[serde(default)]
     pub gt_seed: Option<u64>,
+    /// wallet_tx: the amount relative to the wallet's available balance ("all", "all-1", "all+1", "half", "one", "zero", "fee-only")
+    #[serde(default)]
+    pub frac: Option<String>,
     /// build the block but do not hand it to the node (a chain the node joins in the middle)
     #[serde(default)]
     pub hold: bool,
@@ -670,6 +673,76 @@ pub fn run_scenario(
                     trace.emit(json!({"ev": "Skip", "scn": scn_no, "i": r.step_no, "why": e}));
                 }
             },
+            "wallet_tx" => {
+                // the node's own wallet builds, signs and submits a payment (C19)
+                let pre = r.state(&r.node);
+                let to = r.world.keys[st.to.as_deref().unwrap_or("k2")].public;
+                let node = &r.node;
+                let nk = node.key;
+                let (g, frac, amount0, fee) = (scn.g, st.frac.clone().unwrap_or_default(), st.amount, st.fee);
+                wd.pet(&format!("scn {} step {} wallet_tx", scn_no, r.step_no));
+                let built = guarded(|| {
+                    rt.block_on(async {
+                        let latest = node.blockchain.read().await.get_latest_block_id();
+                        let mut w = node.wallet.write().await;
+                        let bal = w.get_available_balance();
+                        let amount = match frac.as_str() {
+                            "all" => bal.saturating_sub(fee),
+                            "all-1" => bal.saturating_sub(fee).saturating_sub(1),
+                            "all+1" => bal.saturating_sub(fee) + 1,
+                            "half" => bal / 2,
+                            "one" => 1,
+                            "zero" | "fee-only" => 0,
+                            _ => amount0,
+                        };
+                        let r = Transaction::create(&mut w, to, amount, fee, false, None, latest, g);
+                        (bal, amount, r.map(|mut t| {
+                            t.timestamp = T0 + 9_000_000 + latest;
+                            t.generate(&nk.public, 0, 0);
+                            t.sign(&nk.private);
+                            t
+                        }))
+                    })
+                });
+                wd.pause();
+                match built {
+                    Err(p) => {
+                        trace.emit(json!({"ev": "WalletTx", "scn": scn_no, "i": r.step_no, "res": format!("Panic:{}", p), "built": false,
+                            "pre": pre, "st": r.state(&r.node), "tag": st.tag}));
+                        break;
+                    }
+                    Ok((bal, amount, Err(_))) => {
+                        trace.emit(json!({"ev": "WalletTx", "scn": scn_no, "i": r.step_no, "res": "Refused", "built": false, "bal": amt_json(bal),
+                            "amount": amt_json(amount), "fee": amt_json(fee), "pre": pre, "st": r.state(&r.node), "tag": st.tag}));
+                    }
+                    Ok((bal, amount, Ok(tx))) => {
+                        let id = format!("w{}_{}", scn_no, r.step_no);
+                        let d = TxDesc { id: id.clone(), signer: scn.node_key.clone(), ins: vec![], outs: vec![], path: vec![], edit: None, data: None,
+                                         fee: 0, tune: false };
+                        let sig = tx.signature;
+                        r.pool_descs.insert(sig, d.clone());
+                        let after_build = r.state(&r.node);
+                        let node = &r.node;
+                        let txc = tx.clone();
+                        let res = guarded(|| {
+                            rt.block_on(async {
+                                let bc = node.blockchain.read().await;
+                                let mut mp = node.mempool.write().await;
+                                mp.add_transaction_if_validates(txc, &bc).await;
+                                mp.transactions.contains_key(&sig)
+                            })
+                        });
+                        let resn = match res {
+                            Ok(true) => "Pooled".to_string(),
+                            Ok(false) => "Rejected".to_string(),
+                            Err(p) => format!("Panic:{}", p),
+                        };
+                        let desc = r.world.describe_tx(&tx, false, Some(&d), true);
+                        trace.emit(json!({"ev": "WalletTx", "scn": scn_no, "i": r.step_no, "res": resn, "built": true, "tx": desc, "bal": amt_json(bal),
+                            "amount": amt_json(amount), "fee": amt_json(fee), "pre": pre, "after_build": after_build, "st": r.state(&r.node), "tag": st.tag}));
+                    }
+                }
+            }
             "restart" => {
                 // clean shutdown and start from the block files (C12)
                 let pre = r.state(&r.node);
